@@ -508,6 +508,35 @@ def krige_call3(ctx, variant, n, t, dim, err):
     _call_body(ctx, variant, n, t, dim, err)
 
 
+@contract(P, "Krige.__call__[chunk_size]/every-chunk-size-gives-the-unchunked-result",
+          params=[{"variant": v, "t": t, "chunk": c} for v in ("simple", "extdrift")
+                  for t, cs in ((3, (2, 3, 4)), (5, (2, 3, 4))) for c in cs],
+          functions=FN_CALL, bounded="2 conditioning points, 3 or 5 targets, 1-D; chunk sizes that divide, do not divide and "
+                                     "exceed the number of targets", nsamples=2, search=20, max_paths=MAXP)
+@kc.guarded
+def krige_chunks(ctx, variant, t, chunk):
+    """chunk_size only limits memory: every target point is kriged exactly once, in ceil(t / chunk) kernel calls,
+    and field and variance equal those of the call with the default (all targets at once)"""
+    kc.reset()
+    S = kc.build(ctx, variant, 2, 1)
+    tp, pts, te = kc.targets(ctx, S, t)
+    field, var = raw_call(ctx, S, tp, te)
+    n0 = len(kc.CALLS["kernel"])
+    f2, v2 = raw_call(ctx, S, tp, te, chunk_size=chunk)
+    calls = kc.CALLS["kernel"][n0:]
+    ctx.ensure("kernel-calls=ceil(targets/chunk_size);targets-per-call<=chunk_size",
+               len(calls) == -(-t // chunk) and all(np.shape(c["vecs"])[1] <= chunk for c in calls)
+               and sum(np.shape(c["vecs"])[1] for c in calls) == t)
+    ctx.ensure("output-shapes", ctx.And(ctx.shape_eq(f2, (t,)), ctx.shape_eq(v2, (t,))))
+    ok = all(x is not None and (symrun.is_sym(x) or np.isfinite(float(x))) for x in list(np.asarray(f2, dtype=object)) +
+             list(np.asarray(v2, dtype=object)))
+    ctx.ensure("every-target-written", ok)
+    if ok:
+        ctx.ensure("identical-field-and-variance", ctx.And(ctx.eq(f2, field), ctx.eq(v2, var)))
+    f3 = raw_call(ctx, S, tp, te, chunk_size=chunk, return_var=False)
+    ctx.ensure("return_var=False:identical-field", ctx.eq(f3, field))
+
+
 @contract(P, "Krige.__call__/structured=unstructured-on-grid,target-order",
           params=[{"variant": v, "dim": d} for v in ("simple", "ordinary", "universal", "extdrift") for d in (1, 2)],
           functions=FN_CALL + ["tools/geometric.py:generate_grid", "tools/geometric.py:format_struct_pos_dim"],
